@@ -208,12 +208,17 @@ def _run_direct(case, stats, viol, box):
             viol.append({"mechanism": "connect-swallowed-error", "detail": "%s: connect() returned although claimInterface failed" % where})
         except Exception:  # noqa
             pass
+        retry_without_close = (len(be.devices) + iface) % 2 == 0
+        if retry_without_close:
+            # the caller simply tries again (the other program has released the interface meanwhile): no close() in between
+            stats["connect_retries_without_close"] = stats.get("connect_retries_without_close", 0) + 1
         try:
-            t.close()
-            t.close()
+            if not retry_without_close:
+                t.close()
+                t.close()
         except Exception as e:  # noqa
             viol.append({"mechanism": "close-raised", "detail": "%s: close() after a failed connect raised %s" % (where, type(e).__name__)})
-        for fn, err, args in ((t.bulk_read, exc.UsbReadFailedError, (10, 0.1)), (t.bulk_write, exc.UsbWriteFailedError, (b"x", 0.1))):
+        for fn, err, args in (((t.bulk_read, exc.UsbReadFailedError, (10, 0.1)), (t.bulk_write, exc.UsbWriteFailedError, (b"x", 0.1))) if not retry_without_close else ()):
             try:
                 fn(*args)
                 viol.append({"mechanism": "use-after-close", "detail": "%s: %s after a failed connect + close() returned" % (where, fn.__name__)})
@@ -222,15 +227,19 @@ def _run_direct(case, stats, viol, box):
             except Exception as e:  # noqa
                 viol.append({"mechanism": "use-after-close", "detail": "%s: %s after a failed connect + close() raised %s" % (where, fn.__name__, type(e).__name__)})
         be.calls[:] = []
+    else:
+        retry_without_close = False
     # use before connect
     try:
-        t.bulk_read(10, 0.1)
-        viol.append({"mechanism": "use-before-connect", "detail": "%s: bulk_read before connect() returned" % where})
+        if not retry_without_close:
+            t.bulk_read(10, 0.1)
+            viol.append({"mechanism": "use-before-connect", "detail": "%s: bulk_read before connect() returned" % where})
     except exc.UsbReadFailedError:
         pass
     except Exception as e:  # noqa
         viol.append({"mechanism": "use-before-connect", "detail": "%s: bulk_read before connect() raised %s" % (where, type(e).__name__)})
     t.connect(rng.choice([None, 1.0]))
+    be.calls[:] = [c for c in be.calls if c[1] not in ("open", "close", "releaseInterface")] if retry_without_close else be.calls
     stats["connects_checked"] += 1
     t2 = None
     if be.other is not None:
